@@ -342,6 +342,14 @@ def rule_tree_predicate(ctx, rule):
                     atoms |= cond_atoms(cur['inner'][0])
                 if 'r.gravity==REB_GRAVITY_TREE' in atoms and any('COLLISION' in a for a in atoms):
                     sites.append((cfile, fname, cfront.line_of(n), frozenset(atoms)))
+            # the predicate named by a flag local (const int uses_tree = gravity==TREE || collision==TREE || ...)
+            for d in walk(cfront.body(fn)):
+                if d.get('kind') == 'VarDecl' and 'init' in d:
+                    init = [c for c in d.get('inner', []) if c.get('kind') not in ('FullComment',)]
+                    if init:
+                        atoms = cond_atoms(init[-1])
+                        if 'r.gravity==REB_GRAVITY_TREE' in atoms and any('COLLISION' in a for a in atoms):
+                            sites.append((cfile, fname, cfront.line_of(d), frozenset(atoms)))
     anchor(len(sites) >= 4, 'at least four "tree in use" predicates')
     counts = {}
     for s in sites:
